@@ -17,7 +17,7 @@ RULE = ('JSON: dictionaries with int (incl. negative, zero) and non-integer-like
         'nested container (JSON) / at least two rows (tables)')
 ASSUMPTIONS = ['json / csv / base64 / number formatting and parsing / the Python parser are transport: exercised '
                'through the real libraries here, hypotheses in the theorems',
-               'two-column tables and parameter files are compared on the Python side only']
+               'the written files are compared with the model text character by character only as a tally (never an alarm)']
 DTYPES = ['bool', 'int8', 'uint8', 'int16', 'int32', 'int64', 'uint64', 'float16', 'float32', 'float64',
           'complex64', 'complex128', '>f4', '>i2', '<u4']
 
@@ -196,6 +196,32 @@ def _numeric_like(s):
     return False
 
 
+def param_py(v):
+    """case value of a parameter file -> Python object ({'tuple': [...]} stands for a tuple)"""
+    if isinstance(v, dict):
+        return tuple(v['tuple'])
+    return v
+
+
+def param_enc(v):
+    """a parameter value (saved or read back) in the form the Lean driver uses"""
+    if v is None:
+        return None
+    if isinstance(v, (bool, np.bool_)):
+        return {'bool': bool(v)}
+    if isinstance(v, (int, np.integer)):
+        return {'int': int(v)}
+    if isinstance(v, float):
+        return {'lit': repr(float(v))}
+    if isinstance(v, str):
+        return {'str': v}
+    if isinstance(v, list):
+        return {'list': [param_enc(x) for x in v]}
+    if isinstance(v, tuple):
+        return {'tuple': [param_enc(x) for x in v]}
+    return {'other': repr(v)}
+
+
 def py_enc(v):
     """a cell value read back by the real code, as (type name, canonical text)"""
     if type(v) is int:
@@ -282,18 +308,21 @@ def impl(case):
             return dict(text=text, back=back)
         if op == 'params':
             p = d / 'params.py'
+
             def wrap(v):
                 # numbers and flags as NumPy scalars (what arithmetic on loaded arrays hands back)
                 if case.get('npvalues') and isinstance(v, bool):
                     return np.bool_(v)
                 if case.get('npvalues') and isinstance(v, int):
-                    return np.int32(v) if case['npvalues'] == 32 else np.int64(v)
+                    return np.int32(v) if case['npvalues'] == 32 and abs(v) < 2 ** 31 else np.int64(v) if abs(v) < 2 ** 63 else v
                 if case.get('npvalues') and isinstance(v, float):
                     return np.float64(v)
                 return v
-            M.write_python(p, {k: wrap(v) for k, v in case['data']})
+            M.write_python(p, {k: wrap(param_py(v)) for k, v in case['data']})
+            with p.open(newline='') as fh:
+                text = fh.read()
             back = M.read_python(p)
-            return dict(back=[[k, type(v).__name__, v] for k, v in back.items()])
+            return dict(text=text, back=[[k, param_enc(v)] for k, v in back.items()])
     raise ValueError(op)
 
 
@@ -314,7 +343,9 @@ def model_query(case, impl_res):
         return dict(p=PID, op='number', strings=case['strings'])
     if case['op'] == 'csv':
         return dict(p=PID, op='csv', rows=case['rows'], tsv=case['tsv'], impl_text=text)
-    return dict(p=PID, op='tsv', rows=[[['a', {'int': 1}], ['b', {'int': 2}]]], first=None)
+    if case['op'] == 'params':
+        return dict(p=PID, op='params', data=[[k, param_enc(param_py(v))] for k, v in case['data']], impl_text=text)
+    raise ValueError(case['op'])
 
 
 def judge(case, impl_res, ans):
@@ -385,9 +416,12 @@ def judge(case, impl_res, ans):
             return 'MACHINERY: the csv transport model differs from the csv module (text %r vs %r)' % (ok['text'], m['text'])
         return None
     if op == 'params':
-        exp = [[k, type(v).__name__, v] for k, v in case['data']]
-        if ok['back'] != exp:
-            return 'SPEC: parameter file read back as %s, written %s' % (ok['back'], exp)
+        if m['back'] != m['expected']:
+            return 'MACHINERY: model parameter-file round trip differs from its spec (contradicts the theorem)'
+        if ok['back'] != m['expected']:
+            return 'SPEC: parameter file read back as %s, written %s' % (ok['back'], m['expected'])
+        if m['real_parsed'] != m['expected']:
+            return 'CORR: the file written by the real code, read by the model reader, differs from the dictionary'
         return None
 
 
@@ -417,8 +451,9 @@ def tally(rep, case, impl_res, ans):
                 if x['t'] == 'dict':
                     [walk(y) for _, y in x['v']]
             walk(v)
-    elif case['op'] in ('tsv', 'simple', 'csv'):
-        rep.count('ext:' + case.get('ext', 'tsv' if case.get('tsv') else 'csv'))
+    elif case['op'] in ('tsv', 'simple', 'csv', 'params'):
+        if case['op'] != 'params':
+            rep.count('ext:' + case.get('ext', 'tsv' if case.get('tsv') else 'csv'))
         # mechanism-level tie, never an alarm: is the written file the text the model writes, character by character?
         if isinstance(impl_res.get('ok'), dict) and isinstance(ans.get('ok'), dict) and 'text' in ans['ok']:
             rep.count('file_text_equals_model' if impl_res['ok'].get('text') == ans['ok']['text']
@@ -580,9 +615,34 @@ def gen(tier, rng):
         yield dict(p=PID, op='simple', field=rng.pick(['group', 'KSLabel', 'Amplitude', 'my field', 'a,b', 'q"x'] +
                                                       (['t\tab'] if ext == 'tsv' else [])),
                    data=data, ext=ext, metadata=rng.random() < .5)
-    for _ in range(200 if q else 3000):
-        keys = rng.sample(['dat_path', 'n_channels_dat', 'dtype', 'offset', 'sample_rate', 'hp_filtered', 'extra'], rng.randrange(1, 6))
+    for _ in range(300 if q else 5000):
+        keys = rng.sample(['dat_path', 'n_channels_dat', 'dtype', 'offset', 'sample_rate', 'hp_filtered', 'extra', '_x1',
+                           'Fs', 'nChan', 'a', 'match', 'x_y_2'], rng.randrange(1, 6))
+
+        def scalar(inner):
+            k = rng.randrange(6)
+            if k == 0:
+                return rng.pick([3, -1, 0, 384, 10 ** 30, -(2 ** 40)])
+            if k == 1:
+                return rng.pick([2.5, 30000.0, 1e-05, 1e22, -0.0, 0.1, 123456789.12345679, -2.0, 1.5e-300])
+            if k == 2:
+                return rng.random() < .5
+            if k == 3:
+                return None
+            if k == 4:
+                return rng.pick(['int16', 'a b', 'x.dat', '/data/rec 1.bin', '', 'é', "it's", '#1', 'None', '3', 'a, b]', '(x'])
+            # inside lists / tuples repr() quotes and escapes; a top-level string is written between double quotes as it is
+            alpha = list('ab /._-#,[]()=\'') + (['"', '\\', '\t', '\n', '\r', "'"] if inner else [])
+            return ''.join(rng.pick(alpha) for _ in range(rng.randrange(0, 6)))
         data = []
         for k in keys:
-            data.append([k, rng.pick([3, 2.5, True, None, 'int16', 'a b', [1, 2], ['x.dat', 'y.dat'], [], 30000.0, -1])])
+            t = rng.randrange(5)
+            if t <= 1:
+                v = scalar(False)
+            elif t <= 3:
+                v = [scalar(True) for _ in range(rng.randrange(0, 4))]
+            else:
+                v = {'tuple': [scalar(True) for _ in range(rng.randrange(0, 4))]}
+            data.append([k, v])
+        # NumPy scalars only at top level (inside a list repr() writes `np.int64(3)`, which exec cannot read: out of domain)
         yield dict(p=PID, op='params', data=data, npvalues=rng.pick([0, 0, 32, 64]))
